@@ -59,6 +59,7 @@ type flowConn struct {
 	lastSend  time.Time
 	sentAt    map[uuid.UUID]time.Time
 	violation string
+	sizeLog   []int // payload size of every send, in order (append only)
 	recv      chan *actions.MessageStreamRequest
 	closed    chan struct{}
 	once      sync.Once
@@ -94,6 +95,7 @@ func (c *flowConn) record(ds []*actions.SubscriptionMessageDelivery) {
 			continue
 		}
 		c.out[d.ID] = len(d.Payload)
+		c.sizeLog = append(c.sizeLog, len(d.Payload))
 		c.order = append(c.order, d.ID)
 		c.sentAt[d.ID] = time.Now()
 		c.sends++
@@ -228,8 +230,26 @@ func runC11(s *sut.SUT, cs c11Case) (rule, detail string, nontrivial bool) {
 	}
 	// settle waits until the stream has sent everything it owes (2 s per send)
 	holHit := false
+	accounted := 0
+	// reconcile removes from the unsent list what the stream has sent since the
+	// last look (sends can happen at any time, also before settle starts waiting)
+	reconcile := func() {
+		conn.mu.Lock()
+		fresh := append([]int(nil), conn.sizeLog[accounted:]...)
+		accounted = len(conn.sizeLog)
+		conn.mu.Unlock()
+		for _, sz := range fresh {
+			for i, u := range unsent {
+				if u == sz {
+					unsent = append(unsent[:i], unsent[i+1:]...)
+					break
+				}
+			}
+		}
+	}
 	settle := func(after string) (string, string) {
 		for {
+			reconcile()
 			_, _, sends, viol := conn.snapshot()
 			if viol != "" {
 				return strings.SplitN(viol, ":", 2)[0], fmt.Sprintf("after %s: %s", after, viol)
@@ -251,9 +271,13 @@ func runC11(s *sut.SUT, cs c11Case) (rule, detail string, nontrivial bool) {
 					stats.C.Class("known/F13", 1)
 				}
 				time.Sleep(25 * time.Millisecond) // give an over-send the chance to show up
+				reconcile()
 				_, _, _, viol = conn.snapshot()
 				if viol != "" {
 					return strings.SplitN(viol, ":", 2)[0], fmt.Sprintf("after %s: %s", after, viol)
+				}
+				if owes(true) {
+					continue
 				}
 				return "", ""
 			}
@@ -263,27 +287,15 @@ func runC11(s *sut.SUT, cs c11Case) (rule, detail string, nontrivial bool) {
 				_, _, s2, _ := conn.snapshot()
 				if s2 > sends {
 					progressed = true
-					// account what was sent against the unsent list (by size)
-					c2 := conn
-					c2.mu.Lock()
-					var sizes []int
-					for _, id := range c2.order[len(c2.order)-(s2-sends):] {
-						sizes = append(sizes, c2.out[id])
-					}
-					c2.mu.Unlock()
-					for _, sz := range sizes {
-						for i, u := range unsent {
-							if u == sz {
-								unsent = append(unsent[:i], unsent[i+1:]...)
-								break
-							}
-						}
-					}
 					break
 				}
 				time.Sleep(time.Millisecond)
 			}
 			if !progressed {
+				reconcile()
+				if !owes(true) {
+					continue
+				}
 				n, b, _, _ := conn.snapshot()
 				return "stall", fmt.Sprintf("after %s: %d messages / %d bytes are outstanding on the stream (limits %d / %d), %d deliverable messages remain (sizes %v) of which at least one fits, but nothing was sent for 2 s", after, n, b, cs.MaxMsgs, cs.MaxBytes, len(unsent), unsent)
 			}
